@@ -311,7 +311,7 @@ func checkStrictTable(c *core.Ctx, ids map[string]int64) {
 			// evaluate the body for a NULL and a non-NULL argument: must be Boolean, never NULL
 			for _, argNull := range []bool{true, false} {
 				argNull := argNull
-				in := &absint.Interp{Info: fm.Info(), Prog: p}
+				in := newLitInterp(p, fm.Info(), "functions")
 				in.Hooks.Call = chainCall(ctorHook(ids), errorfHook)
 				in.Hooks.Field = func(st *absint.State, base absint.Val, sel string) (absint.Val, bool) {
 					if sel == "TypeID" {
@@ -350,7 +350,7 @@ func checkStrictTable(c *core.Ctx, ids map[string]int64) {
 		}
 		for _, b := range []bool{true, false} {
 			b := b
-			in := &absint.Interp{Info: fm.Info(), Prog: p}
+			in := newLitInterp(p, fm.Info(), "functions")
 			in.Hooks.Call = chainCall(ctorHook(ids), errorfHook)
 			in.Hooks.Field = func(st *absint.State, base absint.Val, sel string) (absint.Val, bool) {
 				switch sel {
